@@ -100,7 +100,7 @@ theorem loop_toks_ok (lno : Nat) : ∀ (fuel pos : Nat) (cs : List Char) (s s' :
             exact Plain_ident hsc
 
 /-- **every token `Lexer::line` delivers is `TokOk`** -/
-theorem line_toks_ok {lno : Nat} {pending ln : String} {lo : LineOut} (h : line lno pending ln = .ok lo) :
+theorem line_toks_ok {lno : Nat} {pending : Option String} {ln : String} {lo : LineOut} (h : line lno pending ln = .ok lo) :
     ∀ t ∈ lo.toks, TokOk t := by
   unfold line at h
   simp only at h
@@ -109,6 +109,14 @@ theorem line_toks_ok {lno : Nat} {pending ln : String} {lo : LineOut} (h : line 
   · next s hl =>
     cases h
     exact loop_toks_ok lno _ _ _ _ s hl (by simp)
+
+/-- the token of `Lexer::finish` (the literal still pending at end of input) is a string token,
+hence `TokOk` -/
+theorem finish_tok_ok {pending : Option String} {loc : Loc} {t : Tok} (h : finish pending loc = some t) :
+    TokOk t := by
+  cases pending with
+  | none => cases h
+  | some p => simp only [finish, Option.map_some, Option.some.injEq] at h; subst h; intro hk; cases hk
 
 end Lex
 end Resynth
